@@ -1,6 +1,6 @@
 #!/bin/bash
 # seedtest.sh <patchfile> <Cxx> [Cyy ...]: apply a seeded change to /repo, run the quick checks, undo it.
-PATCH=$1; shift
+PATCH=$(realpath $1); shift
 git -C /repo apply $PATCH || exit 2
 for p in "$@"; do ./check $p --tier quick 2>&1 | grep -v '^  ' | sed "s|^|[$p] |" | tail -8; done
 git -C /repo checkout -- . ; git -C /repo status --short | head -3
